@@ -7,6 +7,8 @@ contradiction rule: a member function that runs on a valid table may dereference
 because it is in NN, because the function itself allocated it on every path to that point, or because a null test on it dominates the
 dereference (if(p), p ? a : b, early return on !p).  The release routine and the destructor get no invariant at all (they run on
 half-built tables).  The analysis is a forward must-dataflow over each function's CFG with edge refinement on null tests."""
+import re
+
 from .. import core
 from . import ts
 
@@ -386,3 +388,84 @@ def nl3(P, C, floor=3):
     if n < floor:
         raise core.AnalysisBroken("NL-3: only %d building operations found (expected the reader, the fits and the padding builder)" % n)
     return n
+
+
+def nl4(P, C):
+    """NL-4: the rows of the extents block are set up before anything goes through them."""
+    from . import ts
+    C.rule("NL-4", "`extents` is an array of row pointers into one block (`extents[i] = &extents[0][2*i]`), obtained uninitialised from the "
+           "allocator: in every operation that builds it (reader, fit, stacking constructor) the loop that sets the rows for all i >= 1 comes "
+           "before — its head dominates — every access `extents[e][k]` with e other than the constant 0; the fallback that makes up extents "
+           "for a file without an EXTENTS extension writes through the rows", floor=3)
+    n = 0
+    for name, kind in (("read_fits_core", None), ("fit", None), ("splinetable", "ctor")):
+        fs_ = [g for g in P.fns(name) if g.unit == "driver" and g.cls == ts.CLS and (kind is None or (g.kind == kind and len(g.params) >= 3))]
+        done = set()
+        for f in fs_:
+            if (f.file, f.line) in done or not f.cfg:
+                continue
+            done.add((f.file, f.line))
+            pos = f.node_positions()
+            dom = f.dominators()
+            setup = None
+            for L in f.walk():
+                if f.k(L) != "ForStmt":
+                    continue
+                body = f.nodes[L]["body"]
+                st_ = f.ch(body)[0] if f.k(body) == "CompoundStmt" and f.ch(body) else body      # the first statement of the iteration
+                ap = ts.assign_parts(f, st_)
+                if ap and ap[1] is not None:
+                    l = f.render(ap[0]).replace("this->", "").replace(" ", "")
+                    r = f.render(ap[1]).replace("this->", "").replace(" ", "")
+                    m = re.match(r"^extents\[(\w+)\]$", l)
+                    if m and re.match(r"^\(?&extents\[0\]\[\(?(2\*%s|%s\*2)\)?\]\)?$" % (m.group(1), m.group(1)), r):
+                        ini = f.nodes[L].get("init", -1)
+                        start = None
+                        if ini >= 0 and f.k(ini) == "DeclStmt" and f.nodes[ini]["decls"][0].get("init", -1) >= 0:
+                            start = f.nodes[f.strip(f.nodes[ini]["decls"][0]["init"])].get("cv", f.nodes[f.strip(f.nodes[ini]["decls"][0]["init"])].get("v"))
+                        cond = f.render(f.nodes[L]["cond"]).replace("this->", "").replace(" ", "") if f.nodes[L].get("cond", -1) >= 0 else ""
+                        if start in (0, 1) and cond == "(%s<ndim)" % m.group(1):
+                            setup = L
+                            setup_var = m.group(1)
+                            setup_store = st_
+            label = name if kind is None else "stacking constructor"
+            n += 1
+            if setup is None:
+                C.ob("NL-4", label, "rows-before-use", False, f.where(), "the loop that points extents[i] at row i of the block (for every i from 1 below ndim) was not found")
+                continue
+            head = None
+            for x in [f.strip(f.nodes[setup]["cond"])] + list(f.walk(f.nodes[setup]["cond"])):
+                if x in pos:
+                    head = pos[x]
+                    break
+            early = []
+            for x in f.walk():
+                if f.k(x) != "ArraySubscriptExpr" or x in set(f.walk(setup_store)):
+                    continue
+                r = ts.root_member(f, x)
+                if not r or r[0] != "extents" or r[1] != 2:
+                    continue
+                inner = f.strip(f.nodes[x]["ch"][0])
+                if f.k(inner) != "ArraySubscriptExpr":
+                    continue
+                e = f.strip(f.nodes[inner]["ch"][1])
+                if f.nodes[e].get("cv", f.nodes[e].get("v")) == 0 and f.k(e) == "IntegerLiteral":
+                    continue
+                if x in set(f.walk(setup)):
+                    # inside the set-up loop itself: row i, after this iteration's store
+                    if f.render(e).replace(" ", "") == setup_var and f.seq(setup_store) < f.seq(x):
+                        continue
+                    early.append(x)
+                    continue
+                y = x
+                while y >= 0 and y not in pos:
+                    y = f.parent[y]
+                px = pos.get(y)
+                if not (head and px and head[0] in dom.get(px[0], ()) and f.seq(setup) < f.seq(x)):
+                    early.append(x)
+            C.ob("NL-4", label, "rows-before-use", not early, f.loc(early[0]) if early else f.loc(setup),
+                 "every access through extents[i], i >= 1, follows the loop that sets the rows" if not early else
+                 "%s goes through a row pointer of extents that the set-up loop at %s has not assigned yet (the array comes uninitialised from the allocator)" %
+                 (f.render(early[0])[:60], f.loc(setup)))
+    if n < 3:
+        raise core.AnalysisBroken("NL-4: expected the reader, fit and the stacking constructor, found %d" % n)
